@@ -381,12 +381,42 @@ func examineSaved(c *Ctx, nm *namer, ref *Ref, sc saveCase, dir string, died str
 		raw := rawSummary
 		var err error
 		var ps *parsedSummary
+		// the free-text note of a row (last CSV column / "Note") is nothing the property talks about: whatever the code under
+		// test writes there is replaced, by POSITION, with the wording of the pinned commit, which the model renders
+		canonNote := func(i int) string {
+			switch {
+			case i == 0:
+				return "As-is state; zero active management actions"
+			case sc.fam == "single":
+				return "Computationally optimised solution"
+			}
+			return fmt.Sprintf("Pareto front member %d of %d", i, len(run.Members))
+		}
 		if sc.otype == "CSV" {
 			ps, err = parseCsvSummary(string(raw))
-			contents = append(contents, pct(string(raw)))
+			text := string(raw)
+			if err == nil {
+				lines := strings.Split(text, "\n")
+				for i, row := range ps.rows {
+					if l := lines[i+1]; strings.HasSuffix(l, row.note) {
+						if row.note != canonNote(i) {
+							c.Stat("saved-runs: a row's note differs from the pinned wording (not compared)")
+						}
+						lines[i+1] = l[:len(l)-len(row.note)] + canonNote(i)
+					}
+				}
+				text = strings.Join(lines, "\n")
+			}
+			contents = append(contents, pct(text))
 		} else {
 			ps, err = parseJsonSummary(string(raw))
 			if err == nil {
+				for i := range ps.rows {
+					if ps.rows[i].note != canonNote(i) {
+						c.Stat("saved-runs: a row's note differs from the pinned wording (not compared)")
+					}
+					ps.rows[i].note = canonNote(i)
+				}
 				contents = append(contents, ps.jsonCanon())
 			} else {
 				contents = append(contents, "unparsable")
@@ -1473,7 +1503,7 @@ func executeScenario(c *Ctx, rc runConfig, tag string) (runs []runTruth, work, d
 		// a limited model panics deliberately ("Attempt limit reached ...") when its random start never meets the limit
 		// within as many draws as there are actions (C19's matter); the runner reports that run as failed and nothing
 		// is saved for it: such an execution says nothing about saving
-		if strings.Contains(text, "Attempt limit reached") {
+		if isGiveUp(text) {
 			return nil, work, dir, "attempt-limit", false
 		}
 	}
